@@ -218,14 +218,14 @@ class FortranAST:
     def get_object(self, FQSN: str):
         def find_child_by_name(parent, name):
             for child in parent.children:
-                if child.name == name:
+                if child.name.lower() == name:
                     return child
                 if child.name.startswith("#GEN_INT"):
                     found = next(
                         (
                             int_child
                             for int_child in child.get_children()
-                            if int_child.name == name
+                            if int_child.name.lower() == name
                         ),
                         None,
                     )
@@ -233,7 +233,7 @@ class FortranAST:
                         return found
             return None
 
-        parts = FQSN.split("::")
+        parts = FQSN.lower().split("::")
         current = self.global_dict.get(parts[0])
 
         # Look for non-exportable scopes
